@@ -385,6 +385,14 @@ def run(ctx):
     from .c04 import accumulation_rule, leaf_lists_rule, lookup_key_rule, uniquify_rule
     uniquify_rule(ctx, 'R05f')
     lookup_key_rule(ctx, 'R05g', 'MPS')
+    # the lookup answers with the function of the pattern the layer satisfies (C15's rules on
+    # the built-in constraints, shared)
+    from . import c15
+    before = len(ctx.obligations)
+    c15.r15d(ctx)
+    c15.r15f(ctx)
+    for o in ctx.obligations[before:]:
+        o.rule = 'R05j'
     leaf_lists_rule(ctx, 'R05f', 'MPS')
     accumulation_rule(ctx, 'R05e', 'MPS._get_single_cost',
                       ctx.repo.cls('MPS').methods['_get_single_cost'])
